@@ -87,6 +87,10 @@ type Ctx struct {
 const repoModule = "github.com/bolom009/go-clipper2"
 
 func load(repo, arch, tier string) *Ctx {
+	return loadModule(repo, arch, tier, repoModule)
+}
+
+func loadModule(repo, arch, tier, module string) *Ctx {
 	env := append(os.Environ(), "GOFLAGS=-mod=mod", "GOPROXY=off", "GOWORK=off")
 	if arch != "" {
 		env = append(env, "GOARCH="+arch)
@@ -104,12 +108,12 @@ func load(repo, arch, tier string) *Ctx {
 		for _, e := range p.Errors {
 			fatalf("package %s does not type-check: %v", p.PkgPath, e)
 		}
-		if p.PkgPath == repoModule {
+		if p.PkgPath == module {
 			root = p
 		}
 	}
 	if root == nil {
-		fatalf("package %s not found under %s", repoModule, repo)
+		fatalf("package %s not found under %s", module, repo)
 	}
 	prog, _ := ssautil.AllPackages(pkgs, ssa.InstantiateGenerics)
 	prog.Build()
@@ -117,7 +121,7 @@ func load(repo, arch, tier string) *Ctx {
 		prog: prog, spkg: prog.Package(root.Types), all: pkgs, tier: tier, arch: arch,
 		decls: map[string]*ast.FuncDecl{}, analysed: map[string]bool{}}
 	if c.spkg == nil {
-		fatalf("no SSA package for %s", repoModule)
+		fatalf("no SSA package for %s", module)
 	}
 	for _, f := range root.Syntax {
 		for _, d := range f.Decls {
